@@ -25,7 +25,7 @@ ASSUMPTIONS = [
     "title problems are attributed to F22 only by its structural trigger (formatted title empty, a "
     "constant/keyword, or a name of the generated module's own vocabulary)",
 ]
-REQUIRED_COUNTERS = ["pool.internals", "dsl_routes.refused", "dsl_routes.usable", "auto_titles.usable", "pool.half_dunder", 
+REQUIRED_COUNTERS = ["titles.large_sets", "pool.internals", "dsl_routes.refused", "dsl_routes.usable", "auto_titles.usable", "pool.half_dunder", 
     "names.mapped", "e2e.instances", "e2e.properties_parsed_twice", "e2e.generated_module", "siblings.sets", "siblings.distinct_ok", "titles.modules_executed",
     "titles.mapped", "titles.distinct_ok", "titles.sets_without_f22_trigger", "cat.Lu", "cat.Ll", "cat.Nd", "cat.No", "cat.Zs", "cat.Po", "cat.Sm", "cat.Mn",
     "cat.Cc", "cat.Cs", "cat.Co", "cat.Cn", "cat.Lo", "cat.Lm", "pool.keywords", "pool.dunder",
@@ -330,7 +330,10 @@ def pools(ctx, sut):
         "items", "construct", "", " ", "  ", "-", "_", "__", "a b", "1", "123", "1a", "a1", "é", "ß",
         "ſ", "aſ", "ｉｆ", "ª", "²", "①", "a²", "x́", "́", "a‍b", "\ud800", "a\x00b", "\n",
         "None", "True", "False", "none", "true", "null", "print", "object", "type", "match", "case",
-        "__x", "__private", "___", "__a_", "_Holder__x", "ﬁle", "ﬁ", "Ｋ", "ª", "µ", "ǆ", "ℌ", "ｘ１", "Ⅷ", "x̃",
+        "__x", "__private", "___", "__a_", "_Holder__x",
+        # long names, with the separators a line splitter or an argument splitter may trip on
+        "claim, " * 30 + "end", "http://example.com/" + "seg/" * 40, "a" * 300, "x = Property(String()), y",
+        "q', source='z", 'q", source="z', "a)\n    b: str = Property(String(", "ﬁle", "ﬁ", "Ｋ", "ª", "µ", "ǆ", "ℌ", "ｘ１", "Ⅷ", "x̃",
     ]
     for idx, name in enumerate(kws):
         if idx % ctx.nshards == ctx.shard:
@@ -370,6 +373,7 @@ def pools(ctx, sut):
 
 
 CONFUSABLE_FAMILIES = [
+    ["x" * 70 + "alpha", "x" * 70 + "beta", "x" * 64, "x" * 65, "x" * 63 + "y"],
     ["a b", "a-b", "a_b", "a\tb", "a\nb", "a b", "a b"],
     ["x", "x_", "x__", "_x", "X"],
     ["class", "class_", "class__", "Class", "CLASS"],
@@ -483,6 +487,9 @@ def title_sets(ctx, sut):
     rng = ctx.rng
     for idx in range(ctx.params["title_sets"]):
         count = rng.randint(1, 4)
+        if idx % 9 == 4:
+            count = rng.choice([12, 14, 35])    # numbering past one digit / past any small window
+            ctx.count("titles.large_sets")
         pool = TITLE_POOL
         if idx % 2:
             # half of the sets avoid F22's trigger entirely, so that any other
@@ -490,6 +497,8 @@ def title_sets(ctx, sut):
             pool = [t for t in TITLE_POOL if not f22_trigger(expected_class_name(t))]
             ctx.count("titles.sets_without_f22_trigger")
         titles = [rng.choice(pool) for _ in range(count)]
+        if count >= 12:
+            titles = [titles[0]] * count     # ONE title, many different bodies
         if rng.random() < 0.4:
             titles.append(titles[0])  # repeated title, different body
         doc = {"type": "object", "title": "Root", "properties": {}}
